@@ -52,7 +52,7 @@ impl Pest {
     fn start() -> Pest {
         let (pause, idle, stop, churn) = (Arc::new(AtomicBool::new(false)), Arc::new(AtomicBool::new(false)), Arc::new(AtomicBool::new(false)), Arc::new(AtomicUsize::new(0)));
         let (p, i, s, c) = (pause.clone(), idle.clone(), stop.clone(), churn.clone());
-        let h = std::thread::spawn(move || {
+        let h = std::thread::Builder::new().name("pest".into()).spawn(move || {
             if let Some(m) = mon() {
                 m.set_foreign(true);
             }
@@ -88,7 +88,7 @@ impl Pest {
             for fd in held.drain(..) {
                 unsafe { libc::close(fd) };
             }
-        });
+        }).expect("spawn pest");
         Pest { pause, idle, stop, churn, h: Some(h) }
     }
     fn quiesce(&self) {
@@ -238,6 +238,7 @@ pub fn run(ctx: &Ctx) {
         let mut r = Rng::derive(ctx.seed, 0xc11, prog);
         let ops = *r.pick(&[20usize, 60, 120, maxops]);
         let bias = Bias { sets: true, servers: true, regions: true, failing_ops: is_os(), failing_serialize: true, max_chans: 6, ops };
+        let guard = op_begin("operation-sequence", prog);
         let mut it = Interp::new(ctx.seed, prog, bias);
         let mut problems: Vec<(String, Value)> = Vec::new();
         // run step by step so that inheritance can be probed in the middle
@@ -268,6 +269,7 @@ pub fn run(ctx: &Ctx) {
         let Interp { world, model, .. } = it;
         drop(world);
         drop(model);
+        drop(guard);
         let routes = if r.chance(400) { router_scenario(&mut r) } else { 0 };
         rep.stat("router_routes_created_and_stopped", routes as i64);
         // quiescent point (a stopped router thread releases its descriptors when it returns: wait for
@@ -338,11 +340,8 @@ pub fn run(ctx: &Ctx) {
         if i % 20 == 0 {
             rep.sample(json!({"ctx": base, "ops_tail": tail, "fds_at_quiescence": fds.len(), "baseline_fds": base_fds.len(), "clean": seen.is_empty()}));
         }
-        if !seen.is_empty() && extra.len() > 0 {
-            // a leak shifts the baseline for every later program: stop this batch here
-            if rep.nviol.load(Ordering::Relaxed) >= 6 {
-                break;
-            }
+        if rep.nviol.load(Ordering::Relaxed) >= 6 {
+            break; // a leak shifts the baseline for every later program, a hang costs a grace period
         }
     }
     let churn = pest.finish();
